@@ -4,14 +4,21 @@ from __future__ import annotations
 import math
 from fractions import Fraction
 
-from .common import add_failure, bump, new_outcome, rat, unrat
+from .common import LEAN, SRC, add_failure, bump, new_outcome, rat, unrat
 from . import c15_util as U
 
 PROP = "C15"
-PROPS_FILES = ["CogentModel/Props/C15.lean", "CogentModel/Props/C15NJ.lean", "CogentModel/Props/C15UPGMA.lean", "CogentModel/Props/C15Spec.lean"]
-LEAN_TARGETS = ["CogentModel.Props.C15", "CogentModel.Props.C15NJ", "CogentModel.Props.C15UPGMA", "CogentModel.Props.C15Spec"]
+PROPS_FILES = ["CogentModel/Props/C15.lean", "CogentModel/Props/C15NJ.lean", "CogentModel/Props/C15UPGMA.lean", "CogentModel/Props/C15Spec.lean",
+               "CogentModel/Props/C15Gen.lean"]
+LEAN_TARGETS = ["CogentModel.Props.C15", "CogentModel.Props.C15NJ", "CogentModel.Props.C15UPGMA", "CogentModel.Props.C15Spec",
+                "CogentModel.Props.C15Gen"]
 DRIVER = "drv_c15"
+GEN_PATH = LEAN / "CogentModel" / "Gen" / "C15Dist.lean"
 TRUSTED = [
+    "translator/c15_dist2lean.py (ast of fast_distance._hamming/_jc69_from_matrix/_tn93_from_matrix/_logdetcommon/_paralinear/_logdet/"
+    "get_matrix_diff_coords and pairwise_distance_numba.fill_diversity_matrix -> Gen/C15Dist.lean, every run) and the numpy "
+    "primitives of Model/DistanceNumpy.lean (4x4, exact rationals, numpy.log uninterpreted, log(a/sqrt b) = log a - log b / 2); "
+    "Props/C15Gen.lean proves every generated definition equal to the hand model for all arguments",
     "hand-written models lean/CogentModel/Model/{Distance,NJ,UPGMA}.lean of fast_distance / nj / UPGMA "
     "(tied by exact-rational shadow: the driver returns the pre-log rationals / exact trees, the harness applies "
     "math.log and compares with the real implementation on the same index arrays / matrices)",
@@ -28,6 +35,25 @@ ASSUMPTIONS = [
 ]
 
 CALCS = ["hamming", "pdist", "jc69", "tn93", "paralinear", "logdet", "logdet_notk"]
+
+
+def generate(ctx):
+    """translator step: the estimator functions and the counting kernel -> Gen/C15Dist.lean (every run, from the
+    CURRENT source of the tree under test)"""
+    import sys
+
+    from .common import VERIF
+
+    if str(VERIF) not in sys.path:
+        sys.path.insert(0, str(VERIF))
+    from translator import c15_dist2lean
+
+    text, problems = c15_dist2lean.translate(SRC)
+    if text is not None and c15_dist2lean.write_if_changed(GEN_PATH, text):
+        ctx.notes.append("Gen/C15Dist.lean was rewritten (estimator source differs from the last generated text, or first run)")
+    return [f"c15_dist2lean: {p}" for p in problems]
+
+
 REL = 1e-9
 ABS = 1e-12
 TREE_TOL = 1e-9
